@@ -14,6 +14,7 @@ import (
 	"net/http"
 	"net/http/httptest"
 	"sync"
+	"sync/atomic"
 	"time"
 
 	"github.com/jonboulle/clockwork"
@@ -151,23 +152,41 @@ func (c *AutoClock) Sleep(d time.Duration) { c.Advance(d) }
 // (which dispatches every pending batch through the real sendBatch and waits for all sends) and then
 // installs and starts a fresh DirectTransmission with the same parameters. No ticker, no sleep.
 type Tx struct {
-	mu  sync.RWMutex
-	cur *transmit.DirectTransmission
-	mk  func() *transmit.DirectTransmission
+	mu    sync.RWMutex
+	cur   *transmit.DirectTransmission
+	mk    func() *transmit.DirectTransmission
+	dirty atomic.Bool // something was enqueued through this Tx since the last Flush
 }
 
 var _ transmit.Transmission = (*Tx)(nil)
 
-func (t *Tx) EnqueueEvent(ev *types.Event) { t.mu.RLock(); d := t.cur; t.mu.RUnlock(); d.EnqueueEvent(ev) }
-func (t *Tx) EnqueueSpan(sp *types.Span)   { t.mu.RLock(); d := t.cur; t.mu.RUnlock(); d.EnqueueSpan(sp) }
+func (t *Tx) EnqueueEvent(ev *types.Event) {
+	t.mu.RLock()
+	d := t.cur
+	t.mu.RUnlock()
+	t.dirty.Store(true)
+	d.EnqueueEvent(ev)
+}
 
-// Direct returns the current real transmission.
+func (t *Tx) EnqueueSpan(sp *types.Span) {
+	t.mu.RLock()
+	d := t.cur
+	t.mu.RUnlock()
+	t.dirty.Store(true)
+	d.EnqueueSpan(sp)
+}
+
+// Direct returns the current real transmission (it is replaced by every effective Flush). Enqueue through the
+// Tx, not through Direct(): Flush is a no-op when nothing went through the Tx since the previous Flush.
 func (t *Tx) Direct() *transmit.DirectTransmission { t.mu.RLock(); defer t.mu.RUnlock(); return t.cur }
 
 // Flush sends everything that is pending and returns when every request has been answered.
 func (t *Tx) Flush() {
 	t.mu.Lock()
 	defer t.mu.Unlock()
+	if !t.dirty.Swap(false) {
+		return
+	}
 	if err := t.cur.Stop(); err != nil {
 		panic(fmt.Sprintf("pipeline: DirectTransmission.Stop: %v", err))
 	}
